@@ -23,6 +23,10 @@ const (
 	c20MarkClose = 2
 	c20MarkCbBegin = 10
 	c20MarkCbEnd   = 11
+	// value of streamLocalHalfClosed (the state Close() moves an open stream to while a callback goroutine
+	// runs).  Kept numeric so that this harness also builds against a tree without that constant; the value
+	// is pinned by the model comparison (the CAS in Close() logs it).
+	c20LocalHalf = 3
 )
 
 type c20Case struct {
@@ -364,8 +368,8 @@ func c20Run(env *c20Env, c c20Case, mk func() vsChooser, maxSteps int) c20Case {
 	prev := uint32(streamOpened)
 	for _, x := range states {
 		if x != prev {
-			ok := (prev == uint32(streamOpened) && (x == uint32(streamHalfClosed) || x == uint32(streamClosed))) ||
-				(prev == uint32(streamHalfClosed) && x == uint32(streamClosed))
+			ok := (prev == uint32(streamOpened) && (x == uint32(streamHalfClosed) || x == c20LocalHalf || x == uint32(streamClosed))) ||
+				((prev == uint32(streamHalfClosed) || prev == c20LocalHalf) && x == uint32(streamClosed))
 			if !ok {
 				o10[fmt.Sprintf("monotone: state moved from %d to %d", prev, x)] = true
 			}
@@ -380,7 +384,7 @@ func c20Run(env *c20Env, c c20Case, mk func() vsChooser, maxSteps int) c20Case {
 		halfByGor, halfByCloser, casLost, remoteHalf := false, false, false, false
 		for _, st := range steps {
 			if st.Ev != nil && st.Ev.Kind == vsKCAS && st.Ev.Reg == 0 {
-				if st.Ev.A == int64(streamOpened) && st.Ev.B == int64(streamHalfClosed) && st.Ev.C == 1 {
+				if st.Ev.A == int64(streamOpened) && (st.Ev.B == int64(streamHalfClosed) || st.Ev.B == c20LocalHalf) && st.Ev.C == 1 {
 					switch {
 					case st.Tid == 0:
 						remoteHalf = true // the peer's close notification won
